@@ -959,7 +959,18 @@ def _sig(x):
     import numpy as np
     def one(e):
         try: return celt(e)
-        except Unmodelled: return repr(e)
+        except Unmodelled: pass
+        # uncertain complex numbers and other unmodelled elements: value and component vectors, never repr()
+        # (repr of a ucomplex reads .r, which divides by zero when one component variance is 0)
+        try:
+            re_, im_ = e.real, e.imag
+            comp = lambda c: (float(c.x).hex(),
+                              tuple((str(k.uid), float(v).hex()) for k, v in c._u_components.items()),
+                              tuple((str(k.uid), float(v).hex()) for k, v in c._d_components.items()))
+            return ('ucomplex', comp(re_), comp(im_))
+        except Exception:
+            try: return repr(e)
+            except Exception as ex: return ('unprintable', type(e).__name__, type(ex).__name__)
     if isinstance(x, np.ndarray): return (tuple(x.shape), str(x.dtype), tuple(one(e) for e in x.flat))
     return ((), type(x).__name__, (one(x),))
 
